@@ -30,6 +30,20 @@ Create(c, k) ==
           /\ ev' = [e |-> "create", c |-> c, key |-> k, t |-> now, res |-> "created", ns |-> 0]
           /\ UNCHANGED <<leader, gout, gid, ngate>>
   /\ UNCHANGED <<cfg, now, lres>>
+\* The wrapped service's `call` itself panics (injected by the environment, "cp"): the would-be leader's
+\* Service::call unwinds, no future comes into being - a leading request that panicked. The key must be usable again
+\* at once (it must not stay taken by a leader that does not exist); a request that joins a live leader makes no
+\* inner call, so nothing panics and it waits as usual.
+CreateP(c, k) ==
+  /\ st[c] = "idle" /\ key' = [key EXCEPT ![c] = k]
+  /\ IF leader[k] = 0
+     THEN /\ st' = [st EXCEPT ![c] = "done"] /\ lres' = [lres EXCEPT ![c] = "gone"]
+          /\ ev' = [e |-> "create", c |-> c, key |-> k, t |-> now, res |-> "panic", ns |-> 0, cp |-> 1]
+          /\ UNCHANGED <<leader, follows, gout, gid, ngate>>
+     ELSE /\ st' = [st EXCEPT ![c] = "waiting"] /\ follows' = [follows EXCEPT ![c] = leader[k]]
+          /\ ev' = [e |-> "create", c |-> c, key |-> k, t |-> now, res |-> "created", ns |-> 0, cp |-> 1]
+          /\ UNCHANGED <<leader, gout, gid, ngate, lres>>
+  /\ UNCHANGED <<cfg, now>>
 \* the property is silent on whether the elected leader's inner call starts in Service::call or at its first
 \* poll (the election itself is what Service::call decides): "elected" = leader of its key, inner call not started yet
 CreateDeferred(c, k) ==
@@ -85,11 +99,13 @@ Advance(d) ==
   /\ UNCHANGED <<cfg, st, key, leader, follows, lres, gout, gid, ngate>>
 PollAny(c) == PollLeader(c) \/ PollWaiter(c) \/ PollStutter(c) \/ PollLeaderStart(c)
 Next ==
-  \/ \E c \in Callers : (\E k \in Keys : Create(c, k)) \/ PollLeader(c) \/ PollWaiter(c) \/ Drop(c)
+  \/ \E c \in Callers : (\E k \in Keys : Create(c, k) \/ CreateP(c, k)) \/ PollLeader(c) \/ PollWaiter(c) \/ Drop(c)
   \/ \E c \in Callers, o \in Outs : Complete(c, o)
   \/ (now < MaxTime /\ Advance(1))
 Spec == Init /\ [][Next]_vars
 \* C11 at design level
 OneInnerPerKey == \A k \in Keys : Cardinality({c \in Callers : st[c] \in {"leading", "elected"} /\ key[c] = k}) <= 1
+\* a key is taken only by a leader that exists (else its waiters would wait for ever)
+KeyTakenOnlyByLiveLeader == \A k \in Keys : leader[k] # 0 => (st[leader[k]] \in {"leading", "elected"} /\ key[leader[k]] = k)
 WaitersFollowLiveOrResolved == \A c \in Callers : st[c] = "waiting" => follows[c] # 0 /\ key[follows[c]] = key[c]
 =============================================================================
